@@ -173,6 +173,9 @@ pub fn setup(scn: &Scn) -> World {
         let t = home.join(".kismet_temp");
         world::plant(&t.join("stale_debris"), b"junk", 0o600, now - 7200 * SEC, now - 7200 * SEC);
         world::plant(&t.join("fresh_debris"), b"junk", 0o600, now - 60 * SEC, now - 60 * SEC);
+        // the directory itself has been idle for two hours (nothing created in or removed from it since): the file
+        // a minute old was created long ago and is still being written
+        world::set_times(&t, now - 7200 * SEC, now - 7200 * SEC);
     }
     if stack {
         // the read-only level always holds the key (older value) and a bystander
@@ -513,13 +516,21 @@ pub fn effect_violations(w: &World, scn: &Scn, res: &Res, before: &Snapshot, tra
                 bad.push(("wrong-value".into(), format!("get returned {}", world::describe_bytes(b))));
             }
         }
-        (Op::Get(_), Res::Miss) => { /* miss is acceptable: nothing there, or the probe failed with an absence errno */ }
+        (Op::Get(_), Res::Miss) => {
+            // (callers skip this oracle when the key's own probe was answered with an absence errno)
+            if had.is_some() || ro.is_some() {
+                bad.push(("wrong-value".into(), "get reported a miss for a key that is present".into()));
+            }
+        }
         (Op::Touch(_), Res::Bool(b)) => {
             if *b && had.is_none() && ro.is_none() {
                 bad.push(("wrong-value".into(), "touch reported presence of an absent key".into()));
             }
             if *b && had.is_some() {
                 unmarked(&mut bad, "touch");
+            }
+            if !*b && (had.is_some() || ro.is_some()) {
+                bad.push(("wrong-value".into(), "touch reported absence of a key that is present".into()));
             }
         }
         (_, Res::Err(..)) | (_, Res::Panic(_)) => {}
